@@ -106,6 +106,7 @@ def run(chk):
                        "payload ends are only judged on frames whose length fields agree with the capture; payload starts always",
                        "address text is compared through reference parsers (ipaddress module, colon-separated MAC)"]
     chk.floor = 5000
+    chk.rule += '; plus every truncation length of 40-1200 decoded frames, $n on a fresh packet for every n (one copy per n) and in descending order, record wire lengths above / below / equal to the captured length'
     work = core.scratch_dir()
     try:
         cases = []
